@@ -474,3 +474,131 @@ Example ex_scalar_error_member :
   op_fixup (matrix [[VInt 1; VInt 2]]) Add excelutil.c_DIV0 = Ok excelutil.c_DIV0
   /\ cse_member 2 3 excelutil.c_DIV0 2 3 = Ok excelutil.c_DIV0.
 Proof. vm_compute. split; reflexivity. Qed.
+
+(* ============================ all members together = the range's value, blanks as 0 *)
+Definition blank0 (e : pyval) : pyval := if is_blank e then VInt 0 else e.
+
+Lemma mapM_ok_map {A B} (f : A -> res B) (g : A -> B) l :
+  (forall x, In x l -> f x = Ok (g x)) -> mapM f l = Ok (map g l).
+Proof.
+  induction l as [|a l IH]; intros H; [reflexivity|].
+  cbn [mapM map bind]. rewrite (H a (or_introl eq_refl)). cbn [bind].
+  rewrite IH by (intros x Hx; apply H; right; exact Hx). reflexivity.
+Qed.
+
+Definition all_scalar (rows : list (list pyval)) : Prop :=
+  Forall (Forall (fun e => scalar_like e = true)) rows.
+
+Lemma fit_elem_scalar rows i j : all_scalar rows -> scalar_like (fit_elem rows i j) = true.
+Proof.
+  intros Hs. unfold fit_elem, elem2.
+  destruct (nth_error rows (if Nat.eqb (length rows) 1 then O else i)) as [r|] eqn:Er; [|reflexivity].
+  destruct (nth_error r (if Nat.eqb (length (hd [] rows)) 1 then O else j)) as [x|] eqn:Ex; [|reflexivity].
+  unfold all_scalar in Hs. rewrite Forall_forall in Hs. specialize (Hs r (nth_error_In _ _ Er)).
+  rewrite Forall_forall in Hs. apply Hs. eapply nth_error_In. exact Ex.
+Qed.
+
+(* C13_members_matrix: the member cells of the target, taken together, are the
+   h x w matrix of the fitted elements with blanks shown as 0 — i.e. the value
+   of the range itself (C13_range_value) cell by cell *)
+Theorem members_matrix rows C h w :
+  rows <> [] -> (1 <= C)%nat -> rectangular C rows -> all_scalar rows -> 1 <= h -> 1 <= w ->
+  exists M, cse_members h w (matrix rows) = Ok (matrix M)
+            /\ length M = Z.to_nat h /\ rectangular (Z.to_nat w) M
+            /\ forall i j, (i < Z.to_nat h)%nat -> (j < Z.to_nat w)%nat ->
+                           elem2 M i j = Some (blank0 (fit_elem rows i j)).
+Proof.
+  intros Hne HC Hrect Hsc Hh Hw.
+  set (G := fun i j : nat => blank0 (fit_elem rows (pos (Z.of_nat i)) (pos (Z.of_nat j)))).
+  set (F := fun i : nat => map (G i) (seq 1 (Z.to_nat w))).
+  exists (map F (seq 1 (Z.to_nat h))).
+  assert (Hin : forall i, In i (seq 1 (Z.to_nat h)) ->
+            mapM (fun j => cse_member h w (matrix rows) (Z.of_nat i) (Z.of_nat j)) (seq 1 (Z.to_nat w))
+            = Ok (F i)).
+  { intros i Hi. apply in_seq in Hi. apply mapM_ok_map. intros j Hj. apply in_seq in Hj.
+    rewrite (member_fit_elem rows C h w (Z.of_nat i) (Z.of_nat j) Hne HC Hrect) by lia.
+    apply shown_scalar. apply fit_elem_scalar. exact Hsc. }
+  split; [|split; [|split]].
+  - unfold cse_members.
+    rewrite (mapM_ok_map _ (fun i => VTuple (F i))).
+    + cbn [bind]. unfold matrix. rewrite map_map. reflexivity.
+    + intros i Hi. rewrite (Hin i Hi). reflexivity.
+  - rewrite map_length, seq_length. reflexivity.
+  - unfold rectangular. apply Forall_map. apply Forall_forall. intros i _.
+    unfold F. rewrite map_length, seq_length. reflexivity.
+  - intros i j Hi Hj. unfold elem2. rewrite nth_error_map, nth_error_seq_lt by exact Hi.
+    cbn [option_map]. unfold F. rewrite nth_error_map, nth_error_seq_lt by exact Hj.
+    cbn [option_map]. unfold G, pos. do 3 f_equal; lia.
+Qed.
+
+(* every target but the single cell is a CSE range *)
+Lemma target_cells_cse h w result : (h, w) <> (1, 1) -> target_cells h w result = cse_members h w result.
+Proof.
+  intros Hn. unfold target_cells.
+  destruct (Z.eqb_spec h 1) as [->|Eh]; [|reflexivity].
+  destruct (Z.eqb_spec w 1) as [->|Ew]; [congruence|reflexivity].
+Qed.
+
+(* ============================================= which range is the formula's range *)
+Lemma str_prefix_app f t : str_prefix f (f ++ t) = true.
+Proof. induction f as [|c f IH]; [destruct t; reflexivity|]. cbn [app str_prefix]. rewrite Z.eqb_refl. exact IH. Qed.
+
+Lemma member_text_prefix f s : str_prefix f (member_text f s) = true.
+Proof. destruct s as [[[i j] h] w]. unfold member_text. apply str_prefix_app. Qed.
+
+(* C13_range_formula_own: the reference range of an array formula, read back
+   from the sheet load_array_formulas wrote, is recognised as the range of that
+   formula (so _evaluate_range takes the CSE branch with the range's own size) *)
+Theorem range_formula_own f h w : 1 <= h -> 1 <= w -> range_formula (sheet_rows f h w) = Some f.
+Proof.
+  intros Hh Hw.
+  assert (Hall : forallb (forallb (fun c => match c with
+                                            | Member g s => str_prefix f (member_text g s)
+                                            | Other => false end)) (sheet_rows f h w) = true).
+  { apply forallb_forall. intros row Hrow. unfold sheet_rows in Hrow. apply in_map_iff in Hrow.
+    destruct Hrow as (i & <- & _). apply forallb_forall. intros c Hc. apply in_map_iff in Hc.
+    destruct Hc as (j & <- & _). apply member_text_prefix. }
+  unfold range_formula. revert Hall. unfold sheet_rows.
+  destruct (Z.to_nat h) as [|n] eqn:Eh; [lia|]. destruct (Z.to_nat w) as [|m] eqn:Ew; [lia|].
+  cbn [seq map]. intros Hall. rewrite Hall. reflexivity.
+Qed.
+
+(* a range that does not start at member (1, 1) has no formula of its own: its
+   cells are evaluated one by one (each as a member, C13_member_cells) *)
+Theorem range_formula_inner f i j h w row rest :
+  (i, j) <> (1, 1) -> range_formula ((Member f (i, j, h, w) :: row) :: rest) = None.
+Proof.
+  intros Hn. unfold range_formula.
+  destruct (Z.eqb_spec i 1) as [->|Ei]; [|reflexivity].
+  destruct (Z.eqb_spec j 1) as [->|Ej]; [congruence|reflexivity].
+Qed.
+
+Example ex_range_formula :
+  range_formula (sheet_rows [65; 49] 2 2) = Some [65; 49]
+  /\ range_formula [[Member [65; 49] (1, 1, 2, 2); Other]] = None.
+Proof. split; reflexivity. Qed.
+Example ex_members_matrix_hyps : all_scalar m23 /\ rectangular 3 m23 /\ m23 <> [].
+Proof. split; [|split]; [repeat constructor|repeat constructor|discriminate]. Qed.
+
+(* C13_range_shows_members_partial: the reference range of an array formula,
+   read back from the sheet, is that formula's range, and evaluating it gives
+   at every position what the member cell there shows (a blank as 0 in the cell).
+   MISSING for the full statement (every range of the sheet shows its cells'
+   own values): ranges that start at the reference range's top left and run on
+   into another array formula whose text starts with the same text — refuted
+   in Refuted/C13_adjacent_ranges.v *)
+Theorem range_shows_members_partial f rows C h w :
+  rows <> [] -> (1 <= C)%nat -> rectangular C rows -> all_scalar rows -> 1 <= h -> 1 <= w ->
+  range_formula (sheet_rows f h w) = Some f /\
+  exists out M, cse_range_value h w (matrix rows) = Ok (matrix out)
+                /\ cse_members h w (matrix rows) = Ok (matrix M)
+                /\ length M = Z.to_nat h /\ rectangular (Z.to_nat w) M
+                /\ forall i j, (i < Z.to_nat h)%nat -> (j < Z.to_nat w)%nat ->
+                     exists e, elem2 out i j = Some e /\ elem2 M i j = Some (blank0 e).
+Proof.
+  intros Hne HC Hrect Hsc Hh Hw. split; [apply range_formula_own; assumption|].
+  destruct (range_value_matrix rows C h w Hne HC Hrect Hh Hw) as (out & Ho & _ & _ & Eo).
+  destruct (members_matrix rows C h w Hne HC Hrect Hsc Hh Hw) as (M & HM & LM & RM & EM).
+  exists out, M. repeat split; try assumption.
+  intros i j Hi Hj. exists (fit_elem rows i j). split; [apply Eo|apply EM]; assumption.
+Qed.
